@@ -31,6 +31,7 @@ type Exec struct {
 	birth    []int // digest at birth
 	groupers []qframe.Grouper
 	gbirth   []int
+	views    []func() []Cell
 	scn      int
 	step     int
 	nEvents  int
@@ -867,7 +868,7 @@ func evalRef(rc *refCols, e *Expr, ctx map[string]string, ts *tableSet) ([]GV, s
 // ---------------------------------------------------------------- running
 
 func (x *Exec) RunScenario(sc *Scenario) {
-	x.frames, x.birth, x.groupers, x.gbirth = nil, nil, nil, nil
+	x.frames, x.birth, x.groupers, x.gbirth, x.views = nil, nil, nil, nil, nil
 	x.scn = sc.ID
 	x.viaSlice = false
 	for i := range sc.Steps {
@@ -884,7 +885,7 @@ func (x *Exec) frame(i int) qframe.QFrame {
 }
 
 func (x *Exec) runStep(sc *Scenario, st *Step) {
-	nF, nG := len(x.frames), len(x.groupers)
+	nF, nG, nV := len(x.frames), len(x.groupers), len(x.views)
 	ev := Ev{"scn": x.scn, "prop": sc.Prop, "i": x.step, "op": st.Op, "recv": st.Recv, "out": -1, "pan": 0,
 		"obs": emptyObs, "dig": 0, "a": Ev{"_": 0}}
 	func() {
@@ -903,6 +904,16 @@ func (x *Exec) runStep(sc *Scenario, st *Step) {
 		x.dispatch(st, ev)
 	}()
 	ev["reobs"], ev["greobs"] = x.reobserve(nF, nG)
+	vre := [][]int{}
+	for i := 0; i < nV; i++ {
+		d := -1
+		func() {
+			defer func() { recover() }()
+			d = cellsDigest(x.views[i]())
+		}()
+		vre = append(vre, []int{i, d})
+	}
+	ev["vreobs"] = vre
 	x.emit(ev)
 }
 
@@ -1110,7 +1121,7 @@ func (x *Exec) dispatch(st *Step, ev Ev) {
 		ev["res"] = b2i(eq)
 	case "Rebuild":
 		x.rebuild(st, ev)
-	case "ToCSV", "ToJSON", "String", "ReadCSV", "ReadJSON", "ToSQL", "ReadSQL", "CsvScan":
+	case "ToCSV", "ToJSON", "String", "ReadCSV", "ReadJSON", "ToSQL", "ReadSQL", "CsvScan", "Scribble", "View":
 		x.dispatchIO(st, ev)
 	case "SliceObs":
 		// subsequent observations use View.Slice() instead of View.ItemAt(i)
